@@ -52,7 +52,7 @@ func VerifExtractHigherBits(k []byte, idx, window, stepSize int) byte {
 	return extractHigherBits(k, idx, window, stepSize)
 }
 func VerifExtractLowerBits(k []byte, count int) byte { return extractLowerBits(k, count) }
-func VerifExtractBit(k []byte, idx int) byte        { return extractBit(k, idx) }
+func VerifExtractBit(k []byte, idx int) byte         { return extractBit(k, idx) }
 
 func VerifSelectPoints(out *SM2Point, precomputed *[][]*[4]uint64, width int, bits byte) *SM2Point {
 	return selectPoints(out, precomputed, width, bits)
